@@ -17,6 +17,8 @@ import (
 
 type absCase struct {
 	C, B, A, Beh, Exp string
+	// Empty: a "right" case whose data is the empty text: the marshaler returns (nil, nil)
+	Empty bool
 }
 
 var (
@@ -33,12 +35,20 @@ func behave(i int) (beh string) {
 	return script[i].Beh
 }
 
-func dataOf(i int) string { return strconv.Itoa(i) }
+func dataOf(i int) string {
+	if i >= 0 && i < len(script) && script[i].Empty {
+		return ""
+	}
+	return strconv.Itoa(i)
+}
 
 // marshaler behaviour shared by every scripted marshaler
 func doMarshal(i int) ([]byte, error) {
 	switch behave(i) {
 	case "right":
+		if dataOf(i) == "" {
+			return nil, nil // nothing to write: a nil slice, not an empty one
+		}
 		return []byte(dataOf(i)), nil
 	case "wrong":
 		return []byte("other"), nil
@@ -199,6 +209,9 @@ func binaryCases[T any](cs []absCase, val func(i int) T) []test.CaseBinary[T] {
 	out := make([]test.CaseBinary[T], len(cs))
 	for i, c := range cs {
 		out[i] = test.CaseBinary[T]{Constraint: constraintOf(c.C), Error: predicate(c), Data: []byte(dataOf(i)), Value: val(i)}
+		if dataOf(i) == "" {
+			out[i].Data = nil // what the marshaler returns for "nothing to write" (testify tells nil from an empty slice)
+		}
 		if use, f := hookErr(c.B); use {
 			out[i].Before = func(int, *test.CaseBinary[T]) error { return f() }
 		}
@@ -313,7 +326,7 @@ func parseCases(v any) []absCase {
 	out := make([]absCase, len(arr))
 	for i, x := range arr {
 		m := x.(map[string]any)
-		out[i] = absCase{C: str(m["c"]), B: str(m["b"]), A: str(m["a"]), Beh: str(m["beh"]), Exp: str(m["exp"])}
+		out[i] = absCase{C: str(m["c"]), B: str(m["b"]), A: str(m["a"]), Beh: str(m["beh"]), Exp: str(m["exp"]), Empty: m["empty"] == true}
 	}
 	return out
 }
@@ -392,6 +405,22 @@ func init() {
 			d.Do(req)
 			d.S.Boundary()
 		}
+		// the empty text as data: satisfied lists in which it is the only thing special
+		if d.Mine(0) {
+			right := func(empty bool, exp string) map[string]any {
+				return map[string]any{"c": "both", "b": "nil", "a": "nil", "beh": "right", "exp": exp, "empty": empty}
+			}
+			for _, dir := range []string{"marshal", "unmarshal"} {
+				for _, enc := range []string{"Text", "Binary", "JSON"} {
+					for _, recv := range []string{"value", "pointer", "ifacetype"} {
+						for _, cases := range [][]any{{right(true, "none")}, {right(false, "none"), right(true, "none")}, {right(true, "none"), right(true, "none"), right(false, "none")}, {right(true, "any")}} {
+							d.Do(Ev{"op": "helper.run", "dir": dir, "enc": enc, "recv": recv, "iface": true, "cases": cases, "th": false})
+						}
+					}
+				}
+			}
+			d.S.Boundary()
+		}
 		// seeded random longer lists
 		kinds := [][]string{{"both", "marshal", "unmarshal"}, {"nil", "ok", "err", "panic"}, {"right", "wrong", "error", "errdata", "panic"},
 			{"none", "any", "eq", "ne", "prefix_ok", "prefix_no", "suffix_ok", "suffix_no", "match_ok", "match_no", "match_bad"}}
@@ -409,6 +438,9 @@ func init() {
 				}
 				if c["beh"] == "panic" && (c["exp"] == "eq" || c["exp"] == "suffix_ok") {
 					c["exp"] = "any"
+				}
+				if c["beh"] == "right" && c["b"] != "set" && d.R.Intn(4) == 0 {
+					c["empty"] = true // the empty text as data (for the verdict: a right case)
 				}
 				cases[j] = c
 			}
